@@ -79,8 +79,8 @@ def check_s2_integral(run, pkg):
     def at(t):
         return {("sym", "gr"): g, ("sym", "gr_bins"): r, ("sym", "ndim"): d}.get(t)
     check_algebra(run, "R-ALG", it, "integrand", "integrand = (g ln g - g + 1) r^(d-1)", ret[2][0], (g * sp.log(g) - g + 1) * r ** (d - 1), at, fi.loc(), positive=True)
-    okx = ret[2][1] == ("sym", "gr_bins")
-    run.ob("R-ALG", fq, "abscissa", okx, "integration runs over the bin centres r (second argument of the trapezoid rule)", show(ret[2][1])[:40], witness=None if okx else "unit spacing assumed: result off by 1/dr", loc=fi.loc())
+    okx = eqv(ret[2][1], ("sym", "gr_bins"))
+    run.ob("R-ALG", fq, "abscissa", okx, "integration runs over the bin centres r (second argument of the trapezoid rule)", show(ret[2][1])[:40], witness=None if okx else "unit spacing assumed: result off by 1/dr", loc=fi.loc(), sound=True)
 
 
 def check_particle_s2(run, pkg):
@@ -108,11 +108,11 @@ def check_particle_s2(run, pkg):
         loc = loc_of(it, ev)
         Lf, Li = it.loops[ev.loops[0]], it.loops[ev.loops[1]]
         n, snap, i = ("elem", Lf.target, 0), ("elem", Lf.target, 1), Li.target
-        okf = ex(Lf.iter) == ("call", "builtins.enumerate", (("attr", ("sym", "snapshots"), "snapshots"),), ())
-        okp = Li.iter == ("call", "builtins.range", (("attr", snap, "nparticle"),), ())
-        run.ob("R-LOOPDOM", fq, f"{tag}:domain", okf and okp, "every particle of every frame gets a value, stored at [n, i]", f"{show(Lf.iter)[:40]} x {show(Li.iter)[:40]}", witness=None if okf and okp else "entries skipped", loc=loc)
-        okslot = ev.data["target"][2] == ("tuple", (n, i))
-        run.ob("R-IDX", fq, f"{tag}:slot", okslot, "S2 of particle i in frame n is stored at [n, i]", show(ev.data["target"][2])[:30], witness=None if okslot else "wrong slot", loc=loc)
+        okf = eqv(ex(Lf.iter), ("call", "builtins.enumerate", (("attr", ("sym", "snapshots"), "snapshots"),), ()))
+        okp = eqv(Li.iter, ("call", "builtins.range", (("attr", snap, "nparticle"),), ()))
+        run.ob("R-LOOPDOM", fq, f"{tag}:domain", okf and okp, "every particle of every frame gets a value, stored at [n, i]", f"{show(Lf.iter)[:40]} x {show(Li.iter)[:40]}", witness=None if okf and okp else "entries skipped", loc=loc, sound=True)
+        okslot = eqv(ev.data["target"][2], ("tuple", (n, i)))
+        run.ob("R-IDX", fq, f"{tag}:slot", okslot, "S2 of particle i in frame n is stored at [n, i]", show(ev.data["target"][2])[:30], witness=None if okslot else "wrong slot", loc=loc, sound=True)
         val = ev.data["value"]
         call = [x for x in walk(val) if x[0] == "call" and x[1] == "PyMatterSim.static.pairentropy.s2_integral"][0]
         rho, I, dS = sp.Symbol("rho", positive=True), sp.Symbol("I"), sp.Symbol("d", positive=True)
@@ -131,8 +131,8 @@ def check_particle_s2(run, pkg):
         # arguments of the integral
         gri, bins, nd = (list(call[2]) + [None] * 3)[:3]
         nd = nd or dict(call[3]).get("ndim")
-        okargs = nd is not None and ex(nd) == ("sub", ("attr", ("sym", "ppp"), "shape"), C(0))
-        run.ob("R-ALG", fq, f"{tag}:dimension", okargs, "the integral is taken with the system's dimension", show(ex(nd))[:50] if nd else "default (3)", witness=None if okargs else "2D system integrated with r^2", loc=loc)
+        okargs = tri_lazy(lambda: (True if (nd is not None) else None), lambda: eqv(ex(nd), ("sub", ("attr", ("sym", "ppp"), "shape"), C(0))))
+        run.ob("R-ALG", fq, f"{tag}:dimension", okargs, "the integral is taken with the system's dimension", show(ex(nd))[:50] if nd else "default (3)", witness=None if okargs else "2D system integrated with r^2", loc=loc, sound=True)
         r, dr = sp.symbols("k dr", positive=True)
         binsx = ex(bins)
 
@@ -189,12 +189,12 @@ def check_particle_s2(run, pkg):
             continue
         diff, H, ppp = pa
         dele = ("call", "numpy.delete", (("attr", snap, "positions"), i), (("axis", C(0)),))
-        okdiff = diff == ("bin", "-", dele, ("sub", ("attr", snap, "positions"), i))
-        run.ob("R-PBC", fq, f"{tag}:pairs", okdiff, "distance vectors = positions of all other particles (row i deleted) - position of i, same frame", show(diff)[:100], witness=None if okdiff else "self term kept / other frame", loc=loc)
-        okh = H == ("attr", snap, "hmatrix") and ex(ppp) == ("sym", "ppp")
-        run.ob("R-PBC", fq, f"{tag}:cell-mask", okh, "minimum image uses the frame's cell and the instance mask", f"{show(H)[:30]}, {show(ppp)[:20]}", witness=None if okh else "cell/mask wrong", loc=loc)
-        okc = cond[0] == "cmp" and cond[1] in ("<", "<=") and cond[2] == dist and cond[3] == ("call", ".max", (bins,), ())
-        run.ob("R-CMP", fq, f"{tag}:range", okc, "pairs beyond the last bin centre are dropped (they cannot contribute inside the grid beyond a Gaussian tail)", show(cond)[:80], witness=None if okc else "selection differs", loc=loc)
+        okdiff = eqv(diff, ("bin", "-", dele, ("sub", ("attr", snap, "positions"), i)))
+        run.ob("R-PBC", fq, f"{tag}:pairs", okdiff, "distance vectors = positions of all other particles (row i deleted) - position of i, same frame", show(diff)[:100], witness=None if okdiff else "self term kept / other frame", loc=loc, sound=True)
+        okh = tri_lazy(lambda: eqv(H, ("attr", snap, "hmatrix")), lambda: eqv(ex(ppp), ("sym", "ppp")))
+        run.ob("R-PBC", fq, f"{tag}:cell-mask", okh, "minimum image uses the frame's cell and the instance mask", f"{show(H)[:30]}, {show(ppp)[:20]}", witness=None if okh else "cell/mask wrong", loc=loc, sound=True)
+        okc = tri_lazy(lambda: (True if (cond[0] == "cmp") else None), lambda: (True if (cond[1] in ("<", "<=")) else None), lambda: (True if (cond[2] == dist) else None), lambda: eqv(cond[3], ("call", ".max", (bins,), ())))
+        run.ob("R-CMP", fq, f"{tag}:range", okc, "pairs beyond the last bin centre are dropped (they cannot contribute inside the grid beyond a Gaussian tail)", show(cond)[:80], witness=None if okc else "selection differs", loc=loc, sound=True)
         # sigma = sigmas[itype, jtypes[j]]
         oks = False
         detail = show(sig)[:100]
@@ -228,8 +228,8 @@ def check_tetrahedral(run, pkg):
     Lf, Li = it.loops[acc[0].loops[0]], it.loops[acc[0].loops[1]]
     n, snap, i = ("elem", Lf.target, 0), ("elem", Lf.target, 1), Li.target
     loc = loc_of(it, acc[0])
-    okf = Lf.iter == ("call", "builtins.enumerate", (("attr", ("sym", "snapshots"), "snapshots"),), ()) and Li.iter == ("call", "builtins.range", (("attr", snap, "nparticle"),), ())
-    run.ob("R-LOOPDOM", fq, "domain", okf, "every particle of every frame gets a value", "", witness=None if okf else "entries skipped", loc=loc)
+    okf = tri_lazy(lambda: eqv(Lf.iter, ("call", "builtins.enumerate", (("attr", ("sym", "snapshots"), "snapshots"),), ())), lambda: eqv(Li.iter, ("call", "builtins.range", (("attr", snap, "nparticle"),), ())))
+    run.ob("R-LOOPDOM", fq, "domain", okf, "every particle of every frame gets a value", "", witness=None if okf else "entries skipped", loc=loc, sound=True)
     pairs = []
     NB = D = RV = None
     okform = True
@@ -278,9 +278,9 @@ def check_tetrahedral(run, pkg):
     cand = None
     if NB[0] == "comp" and len(NB[3]) == 1:
         cv, src, conds = NB[3][0]
-        oknb = NB[2] == cv and len(conds) == 1 and conds[0] in (("cmp", "!=", cv, i), ("cmp", "!=", i, cv))
+        oknb = tri_lazy(lambda: (True if (NB[2] == cv) else None), lambda: (True if (len(conds) == 1) else None), lambda: eqv(conds[0], ("cmp", "!=", cv, i), ("cmp", "!=", i, cv)))
         cand = src
-    run.ob("R-SELECTK", fq, "drop-self", oknb, "the particle itself is removed from the candidates by its index", show(NB)[-60:], witness=None if oknb else "the particle itself may remain among the four (distance 0: cos undefined)", loc=loc)
+    run.ob("R-SELECTK", fq, "drop-self", oknb, "the particle itself is removed from the candidates by its index", show(NB)[-60:], witness=None if oknb else "the particle itself may remain among the four (distance 0: cos undefined)", loc=loc, sound=True)
     if cand is not None:
         ops = []
         try:
@@ -300,9 +300,9 @@ def check_tetrahedral(run, pkg):
                 run.ob("R-PBC", fq, "image", False if inner is not None and pair_difference(inner) else None, "distances are minimum-image distances", show(dist_t)[:80], witness="neighbours across the boundary are missed", loc=loc)
             else:
                 pdiff = pair_difference(pa[0])
-                okd = pdiff is not None and pdiff["snap"] == snap and {show(pdiff["left"]), show(pdiff["right"])} == {show(FULL), show(i)} and pa[1] == ("attr", snap, "hmatrix") and pa[2] == ("sym", "ppp")
+                okd = tri_lazy(lambda: (True if (pdiff is not None) else None), lambda: (True if (pdiff["snap"] == snap) else None), lambda: (True if ({show(pdiff["left"]), show(pdiff["right"])} == {show(FULL), show(i)}) else None), lambda: eqv(pa[1], ("attr", snap, "hmatrix")), lambda: eqv(pa[2], ("sym", "ppp")))
                 run.ob("R-PBC", fq, "vectors", okd, "bond vectors = remove_pbc(positions - positions[i], frame's cell, mask), and the same vectors enter the dot products", show(pa[0])[:80],
-                       witness=None if okd else "vectors / cell / mask wrong", loc=loc)
+                       witness=None if okd else "vectors / cell / mask wrong", loc=loc, sound=True)
                 okrv = RV == inner
                 run.ob("R-ALIGN", fq, "same-vectors", okrv, "dot products use the imaged vectors whose norms were taken", "", witness=None if okrv else "unimaged vectors in the dot product", loc=loc)
         except AnalysisError as ex_:
@@ -359,15 +359,14 @@ def check_nematic(run, pkg):
                 okq = okq and set(seen) == {(0, 0), (0, 1), (1, 0), (1, 1)} and all(seen.values())
                 run.ob("R-ALG", fq, "Q", okq, "Q_i[x, y] = (d u_x u_y - delta_xy)/2 for all four entries, u = orientation of particle i (d = 2)", str(seen), witness=None if okq else "Q tensor entry wrong / missing", loc=fi.loc())
                 itk = interp(pkg, "utils.funcs.kronecker")
-                okk = len(itk.returns) == 1 and itk.returns[0].data["value"] in (("call", "builtins.int", (("cmp", "==", ("sym", "i"), ("sym", "j")),), ()), ("cmp", "==", ("sym", "i"), ("sym", "j")))
-                run.ob("R-ALG", short(itk.fi.qual), "kronecker", okk, "kronecker(i, j) = 1 if i == j else 0", show(itk.returns[0].data["value"])[:50], witness=None if okk else "delta wrong", loc=itk.fi.loc())
+                okk = tri_lazy(lambda: (True if (len(itk.returns) == 1) else None), lambda: eqv(itk.returns[0].data["value"], ("call", "builtins.int", (("cmp", "==", ("sym", "i"), ("sym", "j")),), ()), ("cmp", "==", ("sym", "i"), ("sym", "j"))))
+                run.ob("R-ALG", short(itk.fi.qual), "kronecker", okk, "kronecker(i, j) = 1 if i == j else 0", show(itk.returns[0].data["value"])[:50], witness=None if okk else "delta wrong", loc=itk.fi.loc(), sound=True)
             # coarse graining
             sa = calls(it, "PyMatterSim.utils.coarse_graining.spatial_average")
             if nb:
-                oks = len(sa) == 1 and dict(sa[0].data["call"][3]).get("neighborfile") == ("sym", "neighborfile") and dict(sa[0].data["call"][3]).get("Nmax") == ("sym", "Nmax") and \
-                    dict(sa[0].data["call"][3]).get("input_property", NONE)[0] == "call"
+                oks = tri_lazy(lambda: (True if (len(sa) == 1) else None), lambda: eqv(dict(sa[0].data["call"][3]).get("neighborfile"), ("sym", "neighborfile")), lambda: eqv(dict(sa[0].data["call"][3]).get("Nmax"), ("sym", "Nmax")), lambda: (True if (dict(sa[0].data["call"][3]).get("input_property", NONE)[0] == "call") else None))
                 run.ob("R-ALG", fq, f"{tag}:coarse", oks, "with a neighbour file the tensors are neighbour-averaged by spatial_average (decided under C16)", show(sa[0].data["call"])[:80] if sa else "not called",
-                       witness=None if oks else "neighbour list ignored", loc=fi.loc())
+                       witness=None if oks else "neighbour list ignored", loc=fi.loc(), sound=True)
             else:
                 run.ob("R-ALG", fq, f"{tag}:coarse", not sa, "without a neighbour file the raw tensors are used", f"{len(sa)} calls", witness=None if not sa else "averaged without a list", loc=fi.loc())
             # scalar
@@ -393,7 +392,7 @@ def check_nematic(run, pkg):
                 ok = e.data["value"] in alts and ret == e.data["target"][1]
                 run.ob("R-ALG", fq, f"{tag}:scalar", ok, "eigen variant: S_i = 2 x largest eigenvalue of Q_i", show(e.data["value"])[:80], witness=None if ok else "not twice the largest eigenvalue", loc=loc_of(it, e))
             else:
-                okt = e.data["value"] in (("call", "numpy.trace", (("call", "numpy.matmul", (Qni, Qni), ()),), ()), ("call", "numpy.trace", (("bin", "@", Qni, Qni),), ()))
+                okt = eqv(e.data["value"], ("call", "numpy.trace", (("call", "numpy.matmul", (Qni, Qni), ()),), ()), ("call", "numpy.trace", (("bin", "@", Qni, Qni),), ()))
                 T = sp.Symbol("T", positive=True)
                 arr = e.data["target"][1]
                 try:
@@ -401,7 +400,7 @@ def check_nematic(run, pkg):
                     okf = S.decide_equal(g, sp.sqrt(T * 2 / (2 - 1)))[0] is True
                 except Exception:  # noqa
                     okf = False
-                run.ob("R-ALG", fq, f"{tag}:scalar", okt and okf, "trace variant: S_i = sqrt(d/(d-1) tr(Q_i Q_i))", f"{show(e.data['value'])[:60]} ; {show(ret)[:60]}", witness=None if okt and okf else "scalar order differs from sqrt(d/(d-1) tr Q^2)", loc=loc_of(it, e))
+                run.ob("R-ALG", fq, f"{tag}:scalar", okt and okf, "trace variant: S_i = sqrt(d/(d-1) tr(Q_i Q_i))", f"{show(e.data['value'])[:60]} ; {show(ret)[:60]}", witness=None if okt and okf else "scalar order differs from sqrt(d/(d-1) tr Q^2)", loc=loc_of(it, e), sound=True)
             okdom = all(it.loops[l].iter[0] == "call" and it.loops[l].iter[1] == "builtins.range" for l in e.loops)
             run.ob("R-LOOPDOM", fq, f"{tag}:domain", okdom, "all frames and particles get a scalar", "", witness=None if okdom else "entries skipped", loc=loc_of(it, e))
 
@@ -428,12 +427,12 @@ def check_gyration(run, pkg):
             v = e.data["value"]
             # (mu + P[i, m] * P[i, n]) / N
             sa = split_acc(v[2]) if (v[0] == "bin" and v[1] == "/" and v[3] == N) else None
-            ok1 = sa is not None and sa[0][3] in (C(0), C(0.0))
+            ok1 = tri_lazy(lambda: (True if (sa is not None) else None), lambda: eqv(sa[0][3], C(0), C(0.0)))
             if ok1:
                 t = sa[1]
                 L = it.loops[sa[0][1]]
                 iv = L.target
-                ok1 = L.iter == ("call", "builtins.range", (N,), ()) and t[0] == "bin" and t[1] == "*" and t[2][0] == "sub" and t[3][0] == "sub" and t[2][1] == t[3][1]
+                ok1 = tri_lazy(lambda: eqv(L.iter, ("call", "builtins.range", (N,), ())), lambda: (True if (t[0] == "bin") else None), lambda: (True if (t[1] == "*") else None), lambda: (True if (t[2][0] == "sub") else None), lambda: (True if (t[3][0] == "sub") else None), lambda: (True if (t[2][1] == t[3][1]) else None))
                 if ok1:
                     Pc = t[2][1]
                     idx = {t[2][2], t[3][2]}
@@ -458,8 +457,8 @@ def check_gyration(run, pkg):
         for e in it.events:
             if e.kind == "assign" and e.data["value"][0] == "call" and e.data["value"][1] == "numpy.sort":
                 pc = e.data["value"]
-        okpc = pc is not None and pc[2][0] in (("sub", ("call", "numpy.linalg.eig", (T,), ()), C(0)), ("call", "numpy.linalg.eigvalsh", (T,), ()), ("call", "numpy.linalg.eigvals", (T,), ())) and not pc[3]
-        run.ob("R-ALG", fq, f"{tag}:eigenvalues", okpc, "principal components = eigenvalues of the tensor sorted ascending", show(pc)[:80] if pc else "?", witness=None if okpc else "descending / unsorted eigenvalues: descriptors use the wrong axes", loc=fi.loc())
+        okpc = tri_lazy(lambda: (True if (pc is not None) else None), lambda: eqv(pc[2][0], ("sub", ("call", "numpy.linalg.eig", (T,), ()), C(0)), ("call", "numpy.linalg.eigvalsh", (T,), ()), ("call", "numpy.linalg.eigvals", (T,), ())), lambda: (True if (not pc[3]) else None))
+        run.ob("R-ALG", fq, f"{tag}:eigenvalues", okpc, "principal components = eigenvalues of the tensor sorted ascending", show(pc)[:80] if pc else "?", witness=None if okpc else "descending / unsorted eigenvalues: descriptors use the wrong axes", loc=fi.loc(), sound=True)
         lam = [sp.Symbol(f"lam{k}", positive=True) for k in range(3)]
         Np = sp.Symbol("N", positive=True)
         tot = sum(lam[:ndim])
